@@ -196,8 +196,6 @@ func (app *Application) BeginBlock(ctx *api.Context) error {
 			ctx.Logger().Error("upgrade handler does not exist",
 				"handler", ud.Handler,
 				"epoch", ud.Epoch,
-				"upgrade_height", pu.UpgradeHeight,
-				"last_completed_stage", pu.LastCompletedStage,
 			)
 			return upgrade.ErrStopForUpgrade
 		default:
